@@ -30,6 +30,8 @@ pub enum Op {
     /// get_mut + write a fresh value
     Mut { k: u64 },
     Ttl { k: u64 },
+    /// get, keep the guard, let `ms` of virtual time pass, then read ValueRef::ttl() through the guard
+    GetHold { k: u64, ms: u64 },
     Clear,
     Wait,
     MaxCost { m: i64 },
@@ -53,6 +55,7 @@ impl Op {
             Op::Get { k } => format!("G({})", k),
             Op::Mut { k } => format!("M({})", k),
             Op::Ttl { k } => format!("T({})", k),
+            Op::GetHold { k, ms } => format!("H({},{}ms)", k, ms),
             Op::Clear => "X".into(),
             Op::Wait => "W".into(),
             Op::MaxCost { m } => format!("U({})", m),
@@ -66,7 +69,7 @@ impl Op {
     }
     pub fn key(&self) -> Option<u64> {
         match self {
-            Op::Ins { k, .. } | Op::Pres { k, .. } | Op::Rem { k } | Op::Get { k } | Op::Mut { k } | Op::Ttl { k } => Some(*k),
+            Op::Ins { k, .. } | Op::Pres { k, .. } | Op::Rem { k } | Op::Get { k } | Op::Mut { k } | Op::Ttl { k } | Op::GetHold { k, .. } => Some(*k),
             _ => None,
         }
     }
@@ -229,15 +232,24 @@ impl KeyBuilder for HKey {
             KeyMode::Collide { m } => k % m,
         }
     }
-    fn hash_conflict<Q>(&self, key: &Q) -> u64
+    fn hash_conflict<Q>(&self, _key: &Q) -> u64
+    where
+        u64: core::borrow::Borrow<Q>,
+        Q: core::hash::Hash + Eq + ?Sized,
+    {
+        // the documented default: a builder that derives both hashes in one pass overrides
+        // `build_key` only
+        0
+    }
+    fn build_key<Q>(&self, key: &Q) -> (u64, u64)
     where
         u64: core::borrow::Borrow<Q>,
         Q: core::hash::Hash + Eq + ?Sized,
     {
         let k = raw(key);
         match self.mode {
-            KeyMode::Transparent => 0,
-            KeyMode::Collide { .. } => k + 1,
+            KeyMode::Transparent => (k, 0),
+            KeyMode::Collide { m } => (k % m, k + 1),
         }
     }
 }
@@ -507,11 +519,24 @@ pub fn build(cfg: &Cfg, flavor: Flavor) -> Result<(H, Shared), stretto::CacheErr
 }
 
 impl H {
+    /// Both forms of every insert entry point are exercised: values with an even sequence number
+    /// go through the panicking wrappers (`insert`, `insert_with_ttl`, `insert_if_present`), odd
+    /// ones through the `try_*` forms.
     pub fn insert(&self, k: u64, v: Val, c: i64, ttl_ms: u64) -> Res {
         let ttl = Duration::from_millis(ttl_ms);
-        let r = match self {
-            H::S(x) => x.try_insert_with_ttl(k, v, c, ttl),
-            H::A(x) => b(x.try_insert_with_ttl(k, v, c, ttl)),
+        if v.seq % 2 == 0 {
+            return Res::Bool(match (self, ttl_ms) {
+                (H::S(x), 0) => x.insert(k, v, c),
+                (H::S(x), _) => x.insert_with_ttl(k, v, c, ttl),
+                (H::A(x), 0) => b(x.insert(k, v, c)),
+                (H::A(x), _) => b(x.insert_with_ttl(k, v, c, ttl)),
+            });
+        }
+        let r = match (self, ttl_ms) {
+            (H::S(x), 0) => x.try_insert(k, v, c),
+            (H::S(x), _) => x.try_insert_with_ttl(k, v, c, ttl),
+            (H::A(x), 0) => b(x.try_insert(k, v, c)),
+            (H::A(x), _) => b(x.try_insert_with_ttl(k, v, c, ttl)),
         };
         match r {
             Ok(x) => Res::Bool(x),
@@ -519,6 +544,12 @@ impl H {
         }
     }
     pub fn insert_if_present(&self, k: u64, v: Val, c: i64) -> Res {
+        if v.seq % 2 == 0 {
+            return Res::Bool(match self {
+                H::S(x) => x.insert_if_present(k, v, c),
+                H::A(x) => b(x.insert_if_present(k, v, c)),
+            });
+        }
         let r = match self {
             H::S(x) => x.try_insert_if_present(k, v, c),
             H::A(x) => b(x.try_insert_if_present(k, v, c)),
@@ -526,6 +557,21 @@ impl H {
         match r {
             Ok(x) => Res::Bool(x),
             Err(e) => Res::Err(e.to_string()),
+        }
+    }
+    /// get, hold the guard while `ms` of virtual time pass, then ask the guard for its TTL
+    pub fn get_hold(&self, k: u64, ms: u64) -> Res {
+        match self {
+            H::S(x) => {
+                let g = x.get(&k);
+                rt::advance(Duration::from_millis(ms));
+                Res::Val(g.map(|r| (*r.value(), Some(ttl_ns(r.ttl())))))
+            }
+            H::A(x) => {
+                let g = b(x.get(&k));
+                rt::advance(Duration::from_millis(ms));
+                Res::Val(g.map(|r| (*r.value(), Some(ttl_ns(r.ttl())))))
+            }
         }
     }
     pub fn remove(&self, k: u64) -> Res {
